@@ -106,10 +106,15 @@ def evaluate(ctx, prop, hists, tag):
     hdr, recs, aborts = L.run_driver(ctx, hists, tag=tag + "_drv")
     bad = L.validate(ctx, hists, hdr, recs, tag=tag + "_tv")
     fails = {}
+    # one failure is kept per (history, kind, predicate): the first one.  The tags of the concurrency predicates (C18) are
+    # those of the failing step itself (LmmTrace.tla), not sticky ones: the first step that no recorded finding explains
+    # comes before any explained one, so that a known deviation earlier in a history cannot hide an unexplained one
+    def rank(i, k, w, tags):
+        return (1 if w in CONC and set(tags) & relevant(k, w) else 0, i) if w in CONC else (0, i)
     for (h, i, k, w), tags in bad.items():
         if w in PREDS[prop]:
             key = (h, k, w)
-            if key not in fails or i < fails[key][0]:
+            if key not in fails or rank(i, k, w, tags) < rank(fails[key][0], k, w, fails[key][1]):
                 fails[key] = (i, tags)
     if prop == "C15":
         for h, ab in enumerate(aborts):
